@@ -182,7 +182,7 @@ def _grid():
         add("DistWeibull", alpha=a, beta=1.0)
     for a, b in ((1.5, 0.05), (0.5, 50.0), (3, 2)):
         add("DistWeibull", alpha=a, beta=b)
-    for c in (12.1, 0, -3.5):
+    for c in (12.1, 0, -3.5, 2 ** 53 + 1, 10 ** 30 + 7, -(2 ** 60) - 3):      # (ints no float can hold, too)
         add("DistConstant", constant=c)
     # discrete
     for p in (0.0, 0.01, 0.5, 0.99, 1.0, 0.3):
@@ -796,7 +796,16 @@ def _check_constant(out, case, params, n):
     xs, used = got
     if any(x != c for x in xs):
         out.fail("draw-not-constant:DistConstant", {"constant": c, "drawn": [x for x in xs if x != c][:3]})
+    # the density says where the mass is: at every drawn value (and, below, nowhere else)
+    for x in xs[:3]:
+        v, e = _call(dist.probability_density, x)
+        if e is not None or not (isinstance(v, (int, float)) and v > 0):
+            out.fail("pdf-zero-at-drawn-value:DistConstant", {"drawn": repr(x), "pdf": repr(v), "error": repr(e),
+                                                              "constant": repr(c)})
+            break
     for x in (c - 1.0, c + 1.0, c + 1e-9 * max(1.0, abs(c)), -1e300, 1e300):
+        if x == c:
+            continue                # (an int constant beyond 2**53: c + 1.0 is c again)
         v, e = _call(dist.probability_density, x)
         if e is not None or v != 0:
             out.fail("pdf-outside-support:DistConstant", {"x": x, "pdf": repr(v), "error": repr(e)})
